@@ -9,9 +9,10 @@ from __future__ import annotations
 
 import itertools
 import os
+import re
 
 from harness.vlib.core import Ctx, ToolFailure
-from harness.c05.front import compile_ext, front, run_worker
+from harness.c05.front import compile_ext, front, run_worker, report, violation_nf
 
 CAP = 5
 TYPES = ["lit", "int", "i64", "i32", "i16", "u8"]
@@ -268,17 +269,35 @@ def skeleton(fn_ir) -> str:
 def run(ctx: Ctx, pool, col=None):
     """two-phase (generator): everything up to the submitted C compile, `yield`, then the compiled runs"""
     fns = gen_functions(ctx)
-    src = "from mypy_extensions import i64, i32, i16, u8\n\n" + "\n".join(f.source() for f in fns)
     d = os.path.join(ctx.tmp, "fr")
     os.makedirs(d, exist_ok=True)
-    with open(os.path.join(d, "c05fr.py"), "w") as fh:
-        fh.write(src)
     opt = ctx.rng.choice(["0", "3"])
-    fut = pool.submit(compile_ext, d, ["c05fr.py"], opt)
-    # --- T: skeletons of the final IR
-    fr = front({"c05fr": src}, os.path.join(ctx.tmp, "mypy_cache_vt"))
+    # --- T: skeletons of the final IR.  Every generated function is inside the fragment by construction (literals fit
+    # the index type the model computes); if the checked tree rejects some, they are dropped and reported below.
+    rejected: list[tuple[Fn, str]] = []
+    for _round in range(4):
+        src = "from mypy_extensions import i64, i32, i16, u8\n\n" + "\n".join(f.source() for f in fns)
+        fr = front({"c05fr": src}, os.path.join(ctx.tmp, "mypy_cache_vt"))
+        if fr.modules is not None or fr.crash is not None or not fr.errors:
+            break
+        lines_src = src.split("\n")
+        bad = {}
+        for m in fr.errors:
+            mm = re.match(r"c05fr\.py:(\d+):.*error: (.*)", m)
+            if mm:
+                k = int(mm.group(1)) - 1
+                while k >= 0 and not lines_src[k].startswith("def "):
+                    k -= 1
+                bad[lines_src[k][4:].split("(")[0]] = mm.group(2)
+        if not bad:
+            break
+        rejected += [(f, bad[f.name]) for f in fns if f.name in bad]
+        fns = [f for f in fns if f.name not in bad]
     if fr.modules is None:
         raise ToolFailure("range-loop module does not compile: %r %r" % (fr.errors[:3], fr.crash))
+    with open(os.path.join(d, "c05fr.py"), "w") as fh:
+        fh.write(src)
+    fut = pool.submit(compile_ext, d, ["c05fr.py"], opt)
     irs = {f.name: f for f in fr.modules["c05fr"].functions}
     if col is not None:
         col.add_modules("range-loops", fr.modules)
@@ -364,7 +383,7 @@ def run(ctx: Ctx, pool, col=None):
         else:
             obs = {"class": "range-loop-differs", "index_type": f.idx, "step_overflows_index_type": overflow,
                    "compiled_equals_model": comp_matches_model}
-        ctx.report(obs, f"`{f.source().splitlines()[2].strip()}` with {expr} (operand types {f.mst}/{f.met}, index {f.idx}, "
+        report(ctx, "fr", obs, f"`{f.source().splitlines()[2].strip()}` with {expr} (operand types {f.mst}/{f.met}, index {f.idx}, "
                         f"opt {opt}): compiled gives {comp[:160]}, CPython {interp[:160]}",
                    {"kind": "range", "function": f.source(), "call": expr, "opt": opt, "compiled": comp, "cpython": interp,
                     "model": m})
@@ -381,6 +400,13 @@ def run(ctx: Ctx, pool, col=None):
         ctx.violation(f"range-loop model predicts {m.split(' visit=')[1]} for {expr} but compiled code (= CPython) gives {comp}",
                       {"broken": "correspondence Model/ForRange.lean loop vs compiled code", "kind": "range",
                        "function": f.source(), "call": expr, "opt": opt}, found_input=False)
+    if rejected and not ctx.violations:
+        f, why = rejected[0]
+        violation_nf(ctx, "fr-rejected", f"mypyc rejects {len(rejected)} range-loop function(s) whose literals fit the index type "
+                     f"Model/ForRange.lean computes (operand types {f.mst}/{f.met} -> {f.idx}): {why}",
+                     {"broken": "translation tie: ForRange.init index type vs Model/ForRange.lean indexType", "kind": "range",
+                      "function": f.source(), "error": why})
+    ctx.coverage["fr_functions_rejected_by_mypyc"] = len(rejected)
     ctx.coverage["fr_functions"] = len(fns)
     ctx.coverage["fr_triples"] = len(cases)
     ctx.coverage["fr_compiled_differs_from_cpython"] = nbad
